@@ -354,6 +354,17 @@ def run(chk):
             r54.ob(inst_id, False, "", "", "opcode %s has no public wrapper Boxed_Number::%s" % (name, name))
             continue
         calls = [n for n in walk(f.body) if n.get("k") == "call" and n.get("name") == "oper"]
+        if not calls and name in ("not_equal", "equals"):
+            # `!equals(a, b)` is `a != b` for every pair of numbers (also NaN); the same does not hold for the ordering comparisons
+            other = "equals" if name == "not_equal" else "not_equal"
+            rets = [n for n in walk(f.body) if n.get("k") == "return" and n.get("e") is not None]
+            e = strip_casts(rets[0]["e"]) if len(rets) == 1 else {}
+            inner = strip_casts(e.get("e") or {}) if e.get("k") == "unop" and e.get("op") == "!" else {}
+            if inner.get("k") == "call" and inner.get("name") == other and len(inner.get("args") or []) == 2 and \
+                    all(param_index(f, strip_casts(a)) == i for i, a in enumerate(inner["args"])):
+                r54.ob(inst_id, True, f.where, f.q, "")
+                r54.note("%s is written as the negation of %s (equivalent for all operands)" % (name, other))
+                continue
         if len(calls) != 1:
             r54.ob(inst_id, False, f.where, f.q, "wrapper does not call oper exactly once")
             continue
